@@ -304,7 +304,7 @@ def run(ctx):
         check_advance_defaults(res)
 
     rng = ctx.rng('seq')
-    for i in range(ctx.n(600, 40000)):
+    for i in range(ctx.n(600, 600000)):
         n_pilots = rng.randint(1, 4)
         sides = ['client'] + ['pilot.%04d' % k for k in range(n_pilots)]
         if rng.random() < 0.35:
